@@ -115,6 +115,24 @@ def oracle(case):
             k = next(i for i, (a, b) in enumerate(zip(imp["bvh"], imp["exhaustive"])) if a != b)
             v.append({"what": f"{n} obstacles, leaf size {leaf}: ray {k} blocked={imp['bvh'][k]} by the acceleration structure, {imp['exhaustive'][k]} testing every obstacle",
                       "key": {"class": "bvh-differs-from-exhaustive", "fits_in_leaf": n <= leaf}})
+        if imp["outcome"] == "ok":
+            # axis-parallel rays against exact geometry, decided with a margin of 1 mm on every face (a zero component may be written +0 or -0)
+            for i, r in enumerate(case["rays"]):
+                o, d = r[:3], r[3:]
+                nz = [k for k in range(3) if d[k] != 0]
+                if len(nz) != 1:
+                    continue
+                k = nz[0]
+                others = [a for a in range(3) if a != k]
+                m = 1e-3
+                clear_hit = any(all(b[a] + m < o[a] < b[a + 3] - m for a in others) and ((d[k] > 0 and b[k + 3] > o[k] + m) or (d[k] < 0 and b[k] < o[k] - m)) for b in case["boxes"])
+                clear_miss = all(any(o[a] < b[a] - m or o[a] > b[a + 3] + m for a in others) or ((d[k] > 0 and b[k + 3] < o[k] - m) or (d[k] < 0 and b[k] > o[k] + m)) for b in case["boxes"])
+                _stats["axis_rays_decided_exactly"] += int(clear_hit or clear_miss)
+                got = imp["exhaustive"][i]
+                if (clear_hit and not got) or (clear_miss and got):
+                    v.append({"what": f"{n} boxes: the axis-parallel ray {r} {'passes through a box' if clear_hit else 'passes clear of every box'} (1 mm margin) but testing every box says blocked={got}",
+                              "key": {"class": "box-test-differs-from-exact", "negative_zero": any(str(c) == '-0.0' for c in d)}})
+                    break
         return v
     if op == "raypoly":
         if not case["impl"]["aabb_contains_corners"]:
